@@ -114,6 +114,7 @@ static void exec_c07(const void *k, res_t *r, const runcfg_t *cfg) {
     g.row = c->row; g.dmax = c->dmax; g.dtrue = (total - OV_DEST) * (size_t)w; g.slen = c->slen; g.n = c->slen; g.val = c->val;
     g.strue = (total - (size_t)so) * (size_t)w; g.scontent = (row->fl & F_SRCSTR) ? SC_STR : SC_BYTES; g.dcontent = (row->fl & F_DIN) ? DC_STR : DC_GARBAGE;
     g.slen_true = c->slen_true; g.dlen = c->dlen;
+    g_model_noslack = cfg->libcfg && strstr(cfg->libcfg, "noslack") != NULL;
     ref_model(row, &g, snap + (size_t)OV_DEST * (size_t)w, snap + (size_t)so * (size_t)w, &M);
     if (!M.known) { res_label(r, "model:declines"); return; }
     /* elements read by the reference */
